@@ -6,8 +6,9 @@ set -u
 VS=/tmp/vseed
 if [ ! -d $VS ]; then git -C /verif worktree add -q --detach $VS HEAD && (cd $VS && ./setup.sh >/dev/null 2>&1); else git -C $VS checkout -q -f --detach $(git -C /verif rev-parse HEAD) && (cd $VS && ./setup.sh >/dev/null 2>&1); fi
 mkdir -p /tmp/vseed-results
+SR=${SEEDPREFIX:-seed}
 for P in "$@"; do
-  for D in /tmp/seed-$P/out/m*; do
+  for D in /tmp/$SR-$P/out/m*; do
     [ -d "$D" ] || continue
     K=$(basename $D)
     # where does the demo go? README says "copy into <dir>"; default by grep of a pkg path
@@ -17,8 +18,8 @@ for P in "$@"; do
     PKG=${PKG%/}
     TAGS=""; grep -q 'tags verif' $D/README.md $D/demo_test.go 2>/dev/null && TAGS="-tags verif"
     echo "== $P $K demo-pkg=$PKG $TAGS"
-    (cd $VS && sed "s#cd /verif \&\& VERIF_REPO#cd $VS \&\& VERIF_REPO#" tools/seedtest.sh > .build/seedtest.sh && bash .build/seedtest.sh $P $D "$PKG" $TAGS) > /tmp/vseed-results/$P-$K.log 2>&1
-    grep -A1 "demo WITH\|demo WITHOUT" /tmp/vseed-results/$P-$K.log | grep -v "^--" | tr '\n' ' ' ; echo
-    grep "VIOLATION\|quick:" /tmp/vseed-results/$P-$K.log | cut -c1-150
+    (cd $VS && sed "s#cd /verif \&\& VERIF_REPO#cd $VS \&\& VERIF_REPO#" tools/seedtest.sh > .build/seedtest.sh && bash .build/seedtest.sh $P $D "$PKG" $TAGS) > /tmp/vseed-results/$SR-$P-$K.log 2>&1
+    grep -A1 "demo WITH\|demo WITHOUT" /tmp/vseed-results/$SR-$P-$K.log | grep -v "^--" | tr '\n' ' ' ; echo
+    grep "VIOLATION\|quick:" /tmp/vseed-results/$SR-$P-$K.log | cut -c1-150
   done
 done
